@@ -884,6 +884,14 @@ def pickle_subjects(case, variant):
     out = [('frame', f), ('frame_go', build_frame(named, sf.FrameGO)), ('frame_unnamed', build_frame(case)),
            ('series_col', f.iloc[:, 0]), ('series_row', f.iloc[0]), ('index', f.index), ('columns', f.columns),
            ('frame_sel', f.iloc[::-1, ::-1]), ('frame_T', f.T)]
+    # one array OBJECT held at two block positions (a duplicated column of a grow-only frame), followed by further blocks
+    g = build_frame(named, sf.FrameGO)
+    first = g.columns.values[0] if g.columns.depth == 1 else tuple(g.columns.values[0])
+    dup = ('dup',) * g.columns.depth if g.columns.depth > 1 else 'dup'
+    g[dup] = g[first]
+    for k in range(2):
+        g[(f'more{k}',) * g.columns.depth if g.columns.depth > 1 else f'more{k}'] = np.arange(len(g.index)) + k
+    out.append(('frame_go_shared_array', g))
     return out
 
 
